@@ -263,9 +263,46 @@ def check(ctx):
             else:
                 r5.bad(V(r5.id, f.id, "init-redirect-guard:name=%s,parent=%s" % (by_name, by_parent),
                          "the configuration path is replaced by <project>/%s without the %s test" % (c.arg_str(1), "file-name" if not by_name else "no-directory-component"), c.file, c.line))
+    # ... and the file init writes is the file whose existence it examined: between an `exists()` test of the configuration path and the write
+    # through that path, the path variable is neither reassigned nor mutably borrowed (set_extension / push / set_file_name after the guard make
+    # init overwrite a file the "already exists, use --force" protection never looked at)
+    from unord import Unord
+    from rulelib import blocks_reachable_from
+    for f in ri:
+        base = lambda op: Unord._base_local(None, f, op)
+        writes = [c for c in f.calls if c.bb in f.reach_blocks and short_path(c.best) in ("GenerateConfig::save_to_file", "GenerateConfig::save_to_tauri_config")]
+        guards = [c for c in f.calls if c.bb in f.reach_blocks and c.name in ("exists", "try_exists", "is_file") and c.args]
+        if not writes or not guards:
+            r5.bad(V(r5.id, f.id, "init-shape:%d:%d" % (len(writes), len(guards)), "run_init: %d configuration writes, %d existence tests" % (len(writes), len(guards))))
+            continue
+        for w in writes:
+            L = base(w.args[-1])
+            gs = [g for g in guards if base(g.args[0]) == L and w.bb in blocks_reachable_from(f, g.bb)]
+            if not gs:
+                r5.bad(V(r5.id, f.id, "init-write-unguarded:%s" % short_path(w.best), "the path written by %s is not the one any existence test examined" % short_path(w.best), w.file, w.line))
+                continue
+            muts = []
+            between = set()
+            for g in gs:
+                between |= {b for b in blocks_reachable_from(f, g.bb) if b in f.reach_blocks and (b == w.bb or w.bb in blocks_reachable_from(f, b))}
+            for b in sorted(between):
+                for st in f.blocks[b]["stmts"]:
+                    rv = st.get("rv")
+                    if "lhs" in st and st["lhs"]["l"] == L and not st["lhs"].get("p"):
+                        muts.append("assigned")
+                    elif rv and rv["k"] == "ref" and rv.get("mut") and rv["place"]["l"] == L:
+                        muts.append("mutably-borrowed")
+                t = f.blocks[b]["term"]
+                if t["k"] == "call" and t["dest"]["l"] == L and not t["dest"].get("p") and b != w.bb:
+                    muts.append("assigned")
+            if muts:
+                r5.bad(V(r5.id, f.id, "init-path-changed-after-guard:%s" % ",".join(sorted(set(muts))),
+                         "the configuration path is %s between its existence test and %s: init can overwrite a file the guard never examined" % ("/".join(sorted(set(muts))), short_path(w.best)), w.file, w.line))
+            else:
+                r5.ok("run_init: the path given to %s is unchanged since its existence test" % short_path(w.best))
     if not ri:
         r5.bad(V(r5.id, "<anchor>", "missing:run_init", "anchor not found"))
-    r5.require_floor(1, "init redirect sites")
+    r5.require_floor(3, "init redirect sites + guarded configuration writes")
     rules.append(r5)
 
     return finish(
